@@ -183,6 +183,8 @@ theorem iterateM_unst (f : DC → M DC) (hf : ∀ s s', Unst s → f s = .ok s' 
 
 theorem closeTableCell_unst (dup : Bool) (s s' : DC) (tc : Xml) (h : Unst s) (he : closeTableCell dup s tc = .ok s') : Unst s' := by
   unfold closeTableCell at he
+  split at he
+  · have := pure_ok he; subst this; exact h
   obtain ⟨pr, _, he⟩ := bind_ok he
   obtain ⟨cap, _, he⟩ := bind_ok he
   split at he
